@@ -2,8 +2,8 @@
    file argv.(1), prints one answer line per query.  Numbers cross as "num/den" (exact); Z and Q stay Coq datatypes.
    Commands:
      NEW | PIN shape class xoff yoff inside dirs prop excl | CEND shape class | SHAPE idx n x y ... | START
-     OP ASSIGN e p | OP FREE e | OP MOVE s dx dy | OP RESIZE s n x y ... | OP DEL s
-     Q                                   -> OK b / PIN i .. / ACT e p / CAND e ps / ENDQ
+     OP ASSIGN e p | OP FREE e | OP MOVE s dx dy | OP RESIZE s n x y ... | OP DEL s | OP RETARGET e s c
+     Q                                   -> OK b / PIN i .. / ACT e p / CAND e ps / END e shape class / ENDQ
      DIRS xoff yoff dirs                 -> DIRS d defexcl
      HON orth qx qy q1x q1y n (x y dirs)* -> HON b atpin
      VIS n (x y)* m (x y)*               -> VIS b
@@ -58,6 +58,7 @@ let () =
               | "MOVE" -> MoveShape (nat_of_int (n 2), q 3, q 4)
               | "RESIZE" -> Resize (nat_of_int (n 2), pts 4 (n 3))
               | "DEL" -> DeleteShape (nat_of_int (n 2))
+              | "RETARGET" -> Retarget (nat_of_int (n 2), nat_of_int (n 3), z_of_int (n 4))
               | _ -> failwith "bad op") in
             if not (step_ok !st o) then begin ok := false; Printf.printf "REFUSED %s\n" line end;
             st := step !st o
@@ -80,7 +81,10 @@ let () =
                | Some p -> Printf.printf "ACT %d %d\n" e (int_of_nat p));
               Printf.printf "CAND %d" e;
               List.iter (fun p -> Printf.printf " %d" (int_of_nat p)) (candidates !st (nat_of_int e));
-              print_newline ()
+              print_newline ();
+              (match List.nth_opt !st.st_ends e with
+               | Some r -> Printf.printf "END %d %d %d\n" e (int_of_nat r.e_shape) (int_of_z r.e_class)
+               | None -> ())
             done;
             print_string "ENDQ\n"
         | "DIRS" ->
